@@ -396,6 +396,7 @@ def c11(tier):
     obs += [B.main_ob("C11", "IOFAIL", ndebug=True)]
     obs += [ob_sector_walk("C11", 1024)]      # extract-files: a failed write (visitor returns false) stops the walk and is reported to the caller
     obs += [ob_extract_paths("C11", "io", "out", io=True)]   # extract-files: success only if every open/write/close of every output file succeeded
+    if os.environ.get("VF_WIP"): obs += [ob_main_exit("C11")]   # WIP, not registered: dfs main() exit path (no verdict yet: check_consistency/make_option_help build a std::map of long strings; symex > 500 s)
     return obs, dict(assumptions=BASIC_ASSUME + ["stdout failure model: each stdout call may report failure (and set the error indicator) from a "
         "nondeterministically chosen call on, or be accepted into a buffer that fails at the next fflush -- ISO C guarantees only, no glibc specifics"])
 
@@ -441,6 +442,13 @@ def ob_catalog_unreadable(pid, readable=1):
                     "throwing a BadFileSystem OBJECT (a thrown pointer would escape every handler)", "%d readable sector(s) (constant per query)" % readable,
                     ["dfs/dfs_volume.cc:Volume::Volume", "dfs/dfs_catalog.cc:Catalog::Catalog", "CatalogFragment::CatalogFragment"], unwind=8,
                     unwindset=CMD_UNWIND + [("h_catalog_unreadable", 12)], defines=("NDEBUG", "CMD_ENTRIES=0", "CAT_READABLE=%d" % readable), weight_gb=6, timeout=900, noop_re=EXC_CTORS + IO_CUT)
+def ob_main_exit(pid):
+    return X.cxx_ob(pid, "main_exit", "w_main.cc", "h_main_exit", "the real dfs main() from command lookup to return: exit status 0 only if std::cout accepted every write (it may start refusing "
+                    "at any insertion or at the final flush), status in {0,1,2}, non-zero status with a diagnostic on std::cerr, no exception escapes; the command either "
+                    "succeeds, fails or throws BadFileSystem", "command line `dfs cat` (no global options: getopt_long contract stub returns -1 at once); harness command with 3 insertions",
+                    ["dfs/main.cc:main", "dfs/main.cc:exit_status", "dfs/main.cc:check_consistency", "dfs/commands.cc:CIReg::get_command"], unwind=8,
+                    unwindset=[("X_strlen", 64), ("vf_string", 66), ("X_mem", 64), ("h_main_exit", 26)], defines=("NDEBUG",), weight_gb=6, timeout=900,
+                    stubs=["getopt_long: contract stub (no global options)", "make_image_file / CommandHelp: not reachable without global options (havoc)"])
 def ob_get_arg(pid, alen):
     return X.cxx_ob(pid, "get_arg.A%d" % alen, "w_dump.cc", "h_get_arg", "dump-sector's get_arg: a track/sector argument is accepted iff it is a decimal number in 0..limit and is taken at its value",
                     "every argument string of exactly %d characters, every 16-bit limit" % alen, ["dfs/cmd_dump.cc:get_arg"], unwind=8,
